@@ -55,6 +55,33 @@ def main(argv):
     r = validate_trace(p)
     say("(b) one commit event removed -> rejected", r is not None and r != -1, "rejected at %s (removed %d)" % (r, idx2 + 1))
 
+    # ---- (a'), (b'): the loader trace binds as well
+    from props import validate_loader_trace
+    nd, n, st = tlc_gen("MCLoader.tla", "Loader_Glob.cfg", "selftest-glob", workers=4, timeout=900, dedup=True)
+    ltr = os.path.join(WORK, "selftest-ltrace.ndjson")
+    bad, lst = validate_loader_trace(nd, ltr, stride=16)
+    say("(a') recorded loader events of %d runs are accepted by LoaderTrace.tla" % lst["runs"], not bad, "%d events" % lst["events"])
+    levents = open(ltr).read().splitlines()
+
+    def lvalidate(lines):
+        q = os.path.join(WORK, "selftest-ltrace-bad.ndjson")
+        open(q, "w").write("\n".join(lines) + "\n")
+        rc, out, secs = run_tlc("MCLoaderTrace.tla", "LoaderTrace.cfg", workers=1, timeout=600, env_extra={"TRACE": q},
+                                java_extra="-Xss1g -Xmx4g -Dtlc2.tool.queue.IStateQueue=StateDeque")
+        m = re.search(r'TRACE-REJECTED at event",\s*(\d+)', out)
+        return int(m.group(1)) if m else (None if "No error has been found" in out else -1)
+    k = next(i for i, l in enumerate(levents) if '"ev":"deliver"' in l and i > 40)
+    e = json.loads(levents[k]); e["pos"] += 1
+    r = lvalidate(levents[:k] + [json.dumps(e)] + levents[k + 1:])
+    say("(a') one logged position off by one -> rejected at that event", r == k + 1, "rejected at %s, corrupted %d" % (r, k + 1))
+    k = next(i for i, l in enumerate(levents) if '"ev":"descend"' in l and len(json.loads(l)["matches"]) >= 2 and i > 40)
+    e = json.loads(levents[k]); e["matches"] = e["matches"][::-1]
+    r = lvalidate(levents[:k] + [json.dumps(e)] + levents[k + 1:])
+    say("(a') the sorted matches of an include reversed -> rejected at that event", r == k + 1, "rejected at %s, corrupted %d" % (r, k + 1))
+    k = next(i for i, l in enumerate(levents) if '"ev":"return"' in l and i > 40)
+    r = lvalidate(levents[:k] + levents[k + 1:])
+    say("(b') one return event removed -> rejected", r is not None and r != -1, "rejected at %s (removed %d)" % (r, k + 1))
+
     # ---- (c): a flipped expectation is reported by the replay harness
     nd, n, st = tlc_gen("MCLedger.tla", "Ledger_Round.cfg", "selftest-round", workers=4, timeout=900)
     recs = read_records(nd)
